@@ -22,6 +22,21 @@ CHECKS = {
             "Every combination of a small program family with every category subset and reporting mode is run as a real pytest session; the oracle (which tests execute a bad snapshot) is known by construction, so one operation/flag cell that fails to mark the test is found deterministically.",
             "Program family of mc/checks/c07.py; pytest 9.1.1 on CPython 3.12; outcomes parsed from -rA lines.",
             "DESIGN.md 5/C07"),
+    "C02": ("exploration",
+            "bounded-exhaustive enumeration of (previous argument text in hand layouts, new value) pairs and multi-snapshot test bodies; one create+fix session each; re-execution oracle",
+            "All ordered pairs of a ~110-value universe (x layouts) and all k-tuples of a 14-statement menu are repaired in one real run and re-executed with inline-snapshot inactive; exhaustive within the bounds.",
+            "Universe/menu in mc/checks/c02.py; Example.run_inline as driver; self-contradicting tests and user-controlled parts excluded as the property says.",
+            "DESIGN.md 5/C02"),
+    "C11": ("exploration",
+            "exhaustive enumeration of all sequence pairs over 3 symbols up to length 4/5 and all key-map pairs; fix-only session; independent LCS oracle; direct exhaustive probe of align()",
+            "Every pair of short sequences (and every pair of small key maps) is fixed by the real code and the surviving element texts are compared with an independent LCS / prefix / suffix computation; complete for the stated lengths.",
+            "3 symbols, length <= 4 (quick) / 5 (thorough); hand-written element text distinguishes survivors from regenerated code.",
+            "DESIGN.md 5/C11"),
+    "C12": ("exploration",
+            "exhaustive enumeration of all strings up to length 3-5 over an adversarial alphabet x position x formatter configuration; literal_eval oracle on the written argument",
+            "Every string of the bounded language is written by the real code in seven positions and under black / no black / format-command, and the literal found in the file is evaluated independently.",
+            "12-character alphabet incl. quotes, backslash, CR, LF, NUL, U+2028, astral; length bound; boundary-string family; black 26.5.1.",
+            "DESIGN.md 5/C12"),
 }
 
 NOT_APPLICABLE = {
